@@ -152,6 +152,7 @@ theorem valid_ok (lp : Bytes) (L : LDef) (hL : LOk L) (probes : List (Scope × E
     (d : Dir) (le : LayerEnv) (hok : le.Ok) (hs : ShapedBy le d) (hx : ExecdOk d) (hsame : EnvSame le lepre)
     (hframe : ∀ k, k ≠ nEnv → k ≠ nEnvBuild → k ≠ nEnvLaunch → d.get k = dpre.get k)
     (ty : Option LTypes) (m : Option MetaTbl) (sb : List (Nat × Bytes)) (hsb : pre.sboms = sb)
+    (hty : storedTypes pre = ty)
     (hdec : decodes L.mt m = true) (log0 : List TCall)
     (hexp : expectedT (Spec.classify pre L.mt) L = some (afterValidT L m log0))
     (hstrict : strict = true → L.strategy = .keep → viewAs L.mt m = m) (fuel : Nat) :
@@ -161,6 +162,8 @@ theorem valid_ok (lp : Bytes) (L : LDef) (hL : LOk L) (probes : List (Scope × E
     WFL2 (tHandle lp L (fuel + 1) ⟨some d, some (.doc ty m), sb⟩ log0).1 := by
   obtain ⟨le1, hr1, ea, eb, el, eproc, _⟩ := read_matches_disk le hok lp d hs
   have hshaped : Shaped d := ⟨⟨le, hok, hs⟩, hx⟩
+  -- a failing strategy / update callback: the layer is still what the pre-state was (apart from a metadata replacement)
+  have hkd : keepDirOk dpre d = true := keepDirOk_of _ _ (sameOpt_envSame dpre d lepre le hspre hs hsame hframe)
   unfold tHandle
   rw [tReadLayer_doc lp d ty m sb L.mt hdec le1 hr1]
   simp only []
@@ -170,7 +173,7 @@ theorem valid_ok (lp : Bytes) (L : LDef) (hL : LOk L) (probes : List (Scope × E
     refine ⟨?_, wfl2_mk d _ _ hshaped⟩
     unfold handleOk
     rw [hexp]
-    simp [afterValidT, hst, TOut.observe, isErr, viewAs_eq]
+    simp [afterValidT, hst, TOut.observe, isErr, viewAs_eq, hpd, docIs, hty, hsb, sameSboms_refl, hkd]
   | recreate =>
     simp only [deleteLayer]
     exact create_ok lp L hL probes strict pre _ (by rw [hexp]; simp [afterValidT, hst, viewAs_eq])
@@ -184,7 +187,7 @@ theorem valid_ok (lp : Bytes) (L : LDef) (hL : LOk L) (probes : List (Scope × E
       refine ⟨?_, wfl2_mk d _ _ hshaped⟩
       unfold handleOk
       rw [hexp]
-      simp [afterValidT, hst, hup, TOut.observe, isErr, viewAs_eq]
+      simp [afterValidT, hst, hup, TOut.observe, isErr, viewAs_eq, hpd, docIs, hty, hsb, sameSboms_refl, hkd]
     | ok r =>
       simp only [Option.map_some]
       rw [hup] at hu
